@@ -247,8 +247,16 @@ CLAIMS = {
              "consume >= 1 token: the registry loop terminates and ends Ok, with the controlled fatal error, or with an exception a "
              "rule itself raised.  The loop model is replayed against the recorded events of every explored run.  Search: "
              "conforming programs, token prefixes, 1-2 token edits under a wall-clock limit; exceptions classified by class + "
-             "innermost frame.  Partial: rule bodies are not modelled (crash-freedom of the 58 rules is searched, not proved).",
-        ref="DESIGN.md 4.5", technique="Rocq proof (lexer termination, generic loop progress) + differential lexing + crash search",
+             "innermost frame.  (c) For the code whose model is regenerated from the source on every run (CheckTernary, CheckLineLen, CheckLabel, "
+             "CheckManyInstructions, CheckEmptyLine, CheckLineIndent, CheckSpacing, the parameter counter of CheckFuncDeclaration "
+             "with Context.skip_nest, CheckLineCount / CheckFunctionsCount / the variable counter, the scope bookkeeping of the "
+             "registry loop) it is proved for EVERY token list and context that it ends normally under the invariants the "
+             "registry guarantees (tokens not exhausted, matched primary already in the history, tkn_scope >= 0, scope chain "
+             "rooted in the global scope), that no loop fuel is ever exhausted, and which exception is raised otherwise; the one "
+             "reachable exception this characterisation exposed (CheckSpacing at end of file inside a column-1 run of spaces) was "
+             "reproduced on the implementation.  Partial: the other rule bodies are not modelled (their crash-freedom is searched, "
+             "not proved).",
+        ref="DESIGN.md 4.5", technique="Rocq proof (lexer termination, generic loop progress, totality of the checks translated from source) + differential lexing + crash search",
         note=NOTE + "Modelled: lexer.py completely, Registry.run generically (rules = oracle). Not modelled: rule bodies, Context helpers."),
     "C06": dict(
         text="Theorems: the order in which the primaries run and in which the checks of a statement run is the same for every "
